@@ -8,6 +8,11 @@
                                                        in build.passenv / build.passunsafeenv, else DefaultPath - installed by
                                                        setDefault, i.e. only when the files leave build.path empty)
      if !config.Cpp.Coverage { append "cc" }          (test.disablecoverage gets an entry appended when cpp.coverage is false)
+     readConfigFileOnly's fs.Open handling             (a file that does not exist is skipped; ANY other error of Open aborts
+                                                       the whole read: an unopenable layer is never treated as absent)
+     readConfigFile + normaliseAndMergePluginConfig   ([Plugin "x"] sections: every file is read into a fresh map, its keys
+                                                       are lower-cased, then the previous layers' values are merged in for the
+                                                       keys the new file does not set)
    No proofs here. *)
 From PlzV Require Import Base.Harness.
 
@@ -82,13 +87,25 @@ Definition config_name : str := s "plzconfig".
 (* fs.ExpandHomePath("~/.config/please/plzconfig") *)
 Definition user_file (e : env) : str := e_home e ++ s "/.config/please/plzconfig".
 
-Definition global_files (e : env) : list str :=
+(* the locations in the order defaultGlobalConfigFiles appends them *)
+Definition global_files_raw (e : env) : list str :=
   [s "/etc/please/plzconfig"]
   ++ (if nonempty (e_xdg_dirs e)
       then map (fun p => join p config_name) (filter is_abs (split_on 58 (e_xdg_dirs e)))
       else [])
   ++ [user_file e]
   ++ (if nonempty (e_xdg_home e) && is_abs (e_xdg_home e) then [join (e_xdg_home e) config_name] else []).
+
+(* for i, f := range configFiles { if !slices.Contains(configFiles[i+1:], f) { deduped = append(deduped, f) } } :
+   every name once, at its LAST (highest-priority) position *)
+Fixpoint keep_last (l : list str) : list str :=
+  match l with
+  | [] => []
+  | x :: r => if existsb (str_eqb x) r then keep_last r else x :: keep_last r
+  end.
+
+(* the same file can be named more than once (XDG_CONFIG_HOME=~/.config/please names the user config again): it is read once *)
+Definition global_files (e : env) : list str := keep_last (global_files_raw e).
 
 Definition repo_files (e : env) : list str :=
   [join (e_root e) (s ".plzconfig");
@@ -296,9 +313,112 @@ Definition sampled : list opt :=
     Multi (s "parse.buildfilename"); Multi (s "parse.blacklistdirs"); Multi (s "parse.builddefsdir");
     Multi (s "build.path"); Multi (s "build.passenv"); Multi (s "build.hashcheckers"); Multi (s "please.pluginrepo");
     Multi (s "parse.preloadsubincludes"); Multi (s "java.defaultmavenrepo");
-    o_passunsafeenv; o_cppcov; o_discov ].
+    o_passunsafeenv; o_cppcov; o_discov;
+    Single SStr (s "please.version") ].
 
 Definition O (i : nat) : opt := nth i sampled (Multi []).
+
+(* ---- a layer that exists but cannot be opened ---------------------------------------------------- *)
+(* readConfigFileOnly:  f, err := fs.Open(filename); if err != nil { if os.IsNotExist(err) { return nil }; return err }
+   `faults` are the names whose Open fails with an error other than "does not exist" (EACCES, EIO, EMFILE, ELOOP, ENOTDIR...). *)
+Inductive open_res := Absent | Opened (f : file) | OpenErr.
+
+Definition fs_open_f (fs : fsys) (faults : list str) (name : str) : open_res :=
+  if mem name faults then OpenErr
+  else match fs_open fs name with Some f => Opened f | None => Absent end.
+
+(* the read loop: the contents read so far (None once an Open failed), and the names passed to Open - it stops at the
+   first failing Open *)
+Fixpoint read_loop (fs : fsys) (faults : list str) (order : list str) : option (list file) * list str :=
+  match order with
+  | [] => (Some [], [])
+  | n :: r =>
+      match fs_open_f fs faults n with
+      | OpenErr => (None, [n])
+      | Absent => let x := read_loop fs faults r in (fst x, n :: snd x)
+      | Opened f => let x := read_loop fs faults r in (option_map (cons f) (fst x), n :: snd x)
+      end
+  end.
+
+(* what ReadConfigFiles makes of the contents read *)
+Definition config_of (sch : schema) (srcs : list file) : option cfg :=
+  if forallb (forallb assign_ok) srcs
+  then let raw := fold_left apply_file srcs (init_cfg sch) in
+       Some (apply_append sch (apply_derive sch (apply_computed sch raw (apply_late sch raw))))
+  else None.
+
+Definition effective_f (sch : schema) (fs : fsys) (faults : list str) (filenames profiles : list str)
+           (ovs : list override) : option cfg :=
+  match fst (read_loop fs faults (read_order filenames profiles)) with
+  | Some srcs => match config_of sch srcs with
+                 | Some c => Some (fold_left apply_override ovs c)
+                 | None => None
+                 end
+  | None => None
+  end.
+
+(* ---- [Plugin "x"] sections ---------------------------------------------------------------------- *)
+(* strings.ToLower on ASCII *)
+Definition lower_c (c : N) : N := if (N.leb 65 c && N.leb c 90)%bool then (c + 32)%N else c.
+Definition lower (x : str) : str := map lower_c x.
+
+(* (plugin name, key) *)
+Definition pkey := (str * str)%type.
+Definition pkey_eqb (a b : pkey) : bool := str_eqb (fst a) (fst b) && str_eqb (snd a) (snd b).
+
+(* one config file as far as plugins go: ((plugin, key AS WRITTEN), value), in file order *)
+Definition pfile := list (pkey * str).
+
+(* a Go map[string][]string per plugin, flattened: distinct keys *)
+Definition pmap := list (pkey * list str).
+
+(* gcfg (extra_values): one map entry per distinct key as written (case sensitive), its values in file order *)
+Fixpoint dedup (l : list pkey) : list pkey :=
+  match l with
+  | [] => []
+  | k :: r => k :: filter (fun k' => negb (pkey_eqb k' k)) (dedup r)
+  end.
+
+Definition exact_vals (k : pkey) (f : pfile) : list str :=
+  flat_map (fun a => if pkey_eqb (fst a) k then [snd a] else []) f.
+
+Definition parse_pfile (f : pfile) : pmap := map (fun k => (k, exact_vals k f)) (dedup (map fst f)).
+
+(* the merged plugin configuration: lookup by (plugin, lower-case key) *)
+Definition pcfg := pkey -> option (list str).
+Definition pempty : pcfg := fun _ => None.
+Definition pupd (c : pcfg) (k : pkey) (v : option (list str)) : pcfg := fun k' => if pkey_eqb k' k then v else c k'.
+
+Definition lower_key (k : pkey) : pkey := (fst k, lower (snd k)).
+
+(* for k, v := range plugin.ExtraValues { newExtraValues[strings.ToLower(k)] = v }   - in the iteration order given *)
+Definition lower_keys (es : pmap) : pcfg :=
+  fold_left (fun c e => pupd c (lower_key (fst e)) (Some (snd e))) es pempty.
+
+(* for k, v := range plugin.ExtraValues { if _, ok := newPlugin.ExtraValues[k]; !ok { newPlugin.ExtraValues[k] = v } } *)
+Definition merge_old (new old : pcfg) : pcfg :=
+  fun k => match new k with Some v => Some v | None => old k end.
+
+(* readConfigFile for one existing file.  `perm` is Go's map iteration order: an arbitrary permutation of the entries. *)
+Definition read_layer (perm : pmap -> pmap) (old : pcfg) (f : pfile) : pcfg :=
+  merge_old (lower_keys (perm (parse_pfile f))) old.
+
+Definition read_plugins (perm : pmap -> pmap) (srcs : list pfile) : pcfg :=
+  fold_left (read_layer perm) srcs pempty.
+
+Definition pfsys := list (str * pfile).
+
+Fixpoint pfs_open (fs : pfsys) (name : str) : option pfile :=
+  match fs with
+  | [] => None
+  | (n, f) :: r => if str_eqb name n then Some f else pfs_open r name
+  end.
+
+Definition psources (fs : pfsys) (order : list str) : list pfile :=
+  flat_map (fun n => match pfs_open fs n with Some f => [f] | None => [] end) order.
+
+Definition plugin_effective (perm : pmap -> pmap) (fs : pfsys) (filenames profiles : list str) : pcfg :=
+  read_plugins perm (psources fs (read_order filenames profiles)).
 
 (* ---- correspondence cases ------------------------------------------------------------------------ *)
 Inductive files_arg :=
@@ -312,7 +432,15 @@ Inductive case :=
 | CRead (path : str)                                  (* $PATH of the caller *)
         (files : files_arg) (profiles : list str) (fs : fsys) (ovs : list override)
         (opens : list str)                            (* observed: names passed to fs.Open, in order *)
-        (result : option (list (list str))).          (* observed: None = error, else the values of `sampled` *)
+        (result : option (list (list str)))           (* observed: None = error, else the values of `sampled` *)
+| CFault (path : str) (files : files_arg) (profiles : list str) (fs : fsys)
+         (faults : list str)                           (* names whose Open fails with an error other than not-exist *)
+         (ovs : list override)
+         (opens : list str) (result : option (list (list str)))
+| CPlugin (files : files_arg) (profiles : list str) (fs : pfsys)
+          (queries : list pkey)                        (* (plugin, lower-case key) *)
+          (opens : list str)
+          (results : list (option (list str))).        (* observed, the same on every one of the repeated reads *)
 
 Definition vals_eqb := list_eqb str_eqb.
 
@@ -335,4 +463,17 @@ Definition check (c : case) : bool :=
       | None, None => prefix_eqb opens (read_order names profiles)
       | _, _ => false
       end
+  | CFault path files profiles fs faults ovs opens result =>
+      let names := filenames_of files in
+      match effective_f (real_schema_at path) fs faults names profiles ovs, result with
+      | Some m, Some obs =>
+          list_eqb str_eqb (read_order names profiles) opens
+          && list_eqb vals_eqb (map m sampled) obs
+      | None, None => prefix_eqb opens (snd (read_loop fs faults (read_order names profiles)))
+      | _, _ => false
+      end
+  | CPlugin files profiles fs queries opens results =>
+      let names := filenames_of files in
+      list_eqb str_eqb (read_order names profiles) opens
+      && list_eqb (option_eqb vals_eqb) (map (plugin_effective (fun m => m) fs names profiles) queries) results
   end.
